@@ -470,6 +470,19 @@ func fastPathExclusions(c *Ctx, fn *ssa.Function) map[*ssa.BasicBlock]bool {
 		if len(lockBlocks) == 0 {
 			c.R.Fatal("findOrCreateHostWithLock: write-lock acquisition not found; cannot separate the fast path")
 		}
+		// the fast path that remains must contain the tracked-host return
+		fast := false
+		for _, b := range fn.Blocks {
+			if excl[b] {
+				continue
+			}
+			if _, ok := b.Instrs[len(b.Instrs)-1].(*ssa.Return); ok && b != fn.Recover {
+				fast = true
+			}
+		}
+		if !fast {
+			c.R.Fatal("findOrCreateHostWithLock: no return outside the slow path; the fast path was not identified")
+		}
 		return excl
 	}
 	return nil
